@@ -146,6 +146,9 @@ def run(prop, tier, seed, rep):
                                                   "script": ev["script"], "between": inputs[v["index"]]["between"],
                                                   "out": ev["out"], "plain": ev["plain"]})
     json.dump(summary, open(os.path.join(core.BUILD, f"last_{prop}_verdicts.json"), "w"), indent=1, sort_keys=True)
+    if tier == "thorough":
+        idx = next(i for i, e in enumerate(events) if e["outcome"] == "ok" and "crc" in e["out"])
+        core.anti_vacuity(rep, "Trace_Reader", events[:idx + 10], [(idx, lambda e: (e["out"].update(crc=e["out"]["crc"] ^ 1), e)[1], "C19")], name="C19-selftest")
     interrupted = sum(1 for e in events if any(c[0] == "r" and c[2] == -1 for c in e["calls"]))
     shortr = sum(1 for e in events if any(c[0] == "r" and 0 <= c[2] < c[1] for c in e["calls"]))
     rep.extra.update({"program_shapes": [n for n, _ in sh], "model_schedules_replayed": nsched, "random_schedules": len(events) - nsched,
